@@ -616,6 +616,8 @@ class SetT(Ty):
         if isinstance(v, VCell):
             v = v.content
         if isinstance(v, VSet):
+            if v.t is None:
+                return z3.K(self.kty.sort(), z3.BoolVal(False))      # set() with no elements yet
             return v.t
         raise EncodeError('Set', v)
 
